@@ -33,6 +33,12 @@ CLAIMS.update({
          "turns a failed or empty root read into Terminate::Error before the program starts.", "§4 C17"),
 })
 
+CLAIMS.update({
+ "C09": ("control-dependence via P-VAR (opcode + left-value variant refinement) over Op::resolve, try_or, IfStatement::resolve",
+         "R09a-c: every evaluation of the right operand under `||`/`&&`/`??` and of the if/else blocks is confined to the edge on which the "
+         "language says it runs; decides the 'unevaluated operands have no side effects' clause, not truth tables.", "§4 C09"),
+})
+
 NA = {}
 
 def main():
